@@ -161,6 +161,20 @@ impl Snap {
                         return format!("table {} columns differ: {:?} vs {:?}", n, t.cols, o.cols);
                     }
                     if t.rows != o.rows {
+                        if t.rows.len() + o.rows.len() > 8 {
+                            // long tables: show only the rows that are not common to both sides
+                            let mut only_a: Vec<&String> = Vec::new();
+                            let mut rest: Vec<&String> = o.rows.iter().collect();
+                            for r in &t.rows {
+                                match rest.iter().position(|x| *x == r) {
+                                    Some(p) => {
+                                        rest.remove(p);
+                                    }
+                                    None => only_a.push(r),
+                                }
+                            }
+                            return format!("table {} rows differ ({} vs {} rows): only before {:?} only after {:?}", n, t.rows.len(), o.rows.len(), only_a, rest);
+                        }
                         return format!("table {} rows differ: before {:?} after {:?}", n, t.rows, o.rows);
                     }
                 }
